@@ -99,6 +99,21 @@ static vj::value handle(const vj::value& c) {
     if (op == "cumsum") return proj_any(view::cumsum(a, (int)g["axis"].as_int()));
     if (op == "cumprod") return proj_any(view::cumprod(a, (int)g["axis"].as_int()));
     double mul = (double)g["mul"].as_int();
+    // dtype absent on a narrow integer source (args.etype i8 / u8): the statistics must not be folded in the element type
+    if (g.has("etype")) {
+        auto narrow = [&](auto tag) -> vj::value {
+            using T = decltype(tag);
+            auto k = c["data"][0].as_vec<long>(); std::vector<T> d; for (auto x : k) d.push_back((T)x);
+            auto b = make_data<T>(c["shapes"][0].as_vec<long>(), d);
+            if (op == "mean") return with_args(g, [&](auto axis, auto, auto keep) { return scaled(view::mean(b, axis, nm::None, keep), mul, false); });
+            if (op == "var") return with_args(g, [&](auto axis, auto, auto keep) { return scaled(view::var(b, axis, nm::None, 0, keep), mul, false); });
+            if (op == "stddev") return with_args(g, [&](auto axis, auto, auto keep) { return scaled(view::stddev(b, axis, nm::None, 0, keep), mul, true); });
+            return crash_res("driver:unsupported");
+        };
+        if (g["etype"].as_str() == "i8") return narrow((int8_t)0);
+        if (g["etype"].as_str() == "u8") return narrow((uint8_t)0);
+        return narrow((int16_t)0);
+    }
     if (op == "mean") return with_args(g, [&](auto axis, auto, auto keep) { return scaled(view::mean(a, axis, nm::float64, keep), mul, false); });
     if (op == "var") return with_args(g, [&](auto axis, auto, auto keep) { return scaled(view::var(a, axis, nm::float64, 0, keep), mul, false); });
     if (op == "stddev") return with_args(g, [&](auto axis, auto, auto keep) { return scaled(view::stddev(a, axis, nm::float64, 0, keep), mul, true); });
